@@ -437,7 +437,9 @@ impl Scheduler {
     fn sync_background<Result: Send, TFn: Send+FnOnce() -> Result>(&self, queue: &Arc<JobQueue>, job: TFn) -> Result {
         // Queue a job that unparks this thread when done
         let wakeup  = Arc::new(Condvar::new());
-        let ready   = Arc::new(Mutex::new(false));
+        // 'rescheduled' starts out set: the queue may have stopped running between the caller looking at its state and the job being queued here,
+        // so the first thing the wait loop does is to try to claim the queue rather than wait for a notification that may already have gone
+        let ready   = Arc::new(Mutex::new(BackgroundWait { finished: false, rescheduled: true }));
         let result  = Arc::new(Mutex::new(None));
         let result2 = result.clone();
 
@@ -453,7 +455,7 @@ impl Scheduler {
         }));
 
         // Add our condition variable to the list of wakers scheduled for the queue
-        queue.core.lock().unwrap().wake_blocked.push(Arc::downgrade(&wakeup));
+        queue.core.lock().unwrap().wake_blocked.push((Arc::downgrade(&wakeup), Arc::downgrade(&ready)));
         
         // Unsafe job with unbounded lifetime is needed because stuff on the queue normally needs a static lifetime
         let need_reschedule = {
@@ -471,18 +473,21 @@ impl Scheduler {
             let ready_mutex = ready;
             let mut ready   = ready_mutex.lock().expect("Background job ready lock");
             
-            while !*ready {
-                // Use the condition variable to wait for the wakeup
-                ready = wakeup.wait(ready).expect("Background job cvar wait");
+            while !ready.finished {
+                // Use the condition variable to wait for the wakeup (unless the queue was rescheduled before we got here)
+                if !ready.rescheduled {
+                    ready = wakeup.wait(ready).expect("Background job cvar wait");
+                }
 
                 // If we're woken up and the queue is idle, drain it until the result is available
-                if !*ready {
+                if !ready.finished {
                     // Need to drop the lock so we can safely run the queue
+                    ready.rescheduled = false;
                     mem::drop(ready);
 
                     if self.core.claim_pending_queue(queue) {
                         // We're now running the queue: try to run jobs on it until it's ready
-                        while !*ready_mutex.lock().unwrap() {
+                        while !ready_mutex.lock().unwrap().finished {
                             match JobQueue::run_one_job_now(queue) {
                                 JobStatus::Finished | JobStatus::NoJobsWaiting => { },
                             }
@@ -505,7 +510,7 @@ impl Scheduler {
 
         // Clean up the wakers from the queue (should at least free our one)
         mem::drop(wakeup);
-        queue.core.lock().unwrap().wake_blocked.retain(|waker| waker.strong_count() > 0);
+        queue.core.lock().unwrap().wake_blocked.retain(|(waker, _)| waker.strong_count() > 0);
 
         // Return the result
         final_result
